@@ -35,6 +35,17 @@ func runC16(c *fw.C) {
 	if r.Chance(1, 4) {
 		n = r.Range(400, 4000)
 	}
+	if c.Idx%7 == 5 { // sizes on the grow/shrink thresholds: bf^h - 1, bf^h, bf^h + 1, bf^h + 2
+		h := r.Range(1, 5)
+		p := 1
+		for i := 0; i < h && p < 3000; i++ {
+			p *= int(cfg.BF)
+		}
+		n = p + r.Range(-1, 2)
+		if n < 1 {
+			n = 1
+		}
+	}
 	if c.Idx%15 == 3 {
 		n = r.Range(5000, 15000)
 		if c.Tier == "thorough" {
@@ -209,6 +220,23 @@ func runC16(c *fw.C) {
 			} else if h >= 2 {
 				c.NonTrivial(fw.Mix(fw.StrHash(rootStr(root)), 2, fw.StrHash(fmt.Sprint(k))))
 			}
+		case x == 9 && r.Bool(): // a Delete that fails (absent key, or wrong value) reads no more than a successful one
+			k := pool[r.Intn(len(pool))]
+			var v interface{} = cfg.VK.Gen(r)
+			what := "absent key"
+			if mv, ok := target.M.Get(k); ok {
+				if cfg.VK.Single {
+					continue
+				}
+				v = diffValOf(cfg.VK, r, mv)
+				what = "present key, non-matching value"
+			}
+			measure("Delete_failing", 2*(h+1), fmt.Sprintf("of %v (%s)", k, what), func() error {
+				if err := target.T.Delete(e.Ctx, k, v); err == nil {
+					return fmt.Errorf("delete of %s succeeded", what)
+				}
+				return nil
+			})
 		default: // cursor navigation
 			var cur interface {
 			}
